@@ -431,6 +431,30 @@ fn search(acts: Vec<Act>, depth: u8, threads: usize, name: &str) -> Report {
     rep
 }
 
+fn search_isolated(tier: Tier, name: &'static str, threads: usize) -> Report {
+    let exe = std::env::current_exe().expect("current_exe");
+    let spec = format!("{}:{}", threads, name);
+    crate::props::c08::run_engine_for("C09", exe.to_str().unwrap(), &["C09", tier.name()], &[("C09_SEARCH", &spec)], name)
+}
+
+/// Entry of the child process started by `search_isolated`: runs one search, prints its report.
+pub fn child_search(tier: Tier, spec: &str) {
+    let (threads, name) = spec.split_once(':').expect("C09_SEARCH=<threads>:<name>");
+    let threads: usize = threads.parse().expect("threads");
+    let (d_full, d_sub): (u8, u8) = tier.pick((2, 3), (3, 4));
+    let rep = if name.starts_with("ladder") {
+        search(ladder_alphabet(), tier.pick(4, 5), threads, name)
+    } else if name.starts_with("sub") {
+        search(alphabet(tier, true), d_sub, threads, name)
+    } else {
+        search(alphabet(tier, false), d_full, threads, name)
+    };
+    let mut v = report_to_json(&rep);
+    v["planned"] = json!(rep.planned);
+    v["spaces"] = json!(rep.spaces);
+    println!("{}", v);
+}
+
 pub fn prop(tier: Tier, _seed: u64) -> Prop {
     let mut p = Prop::new("C09");
     let full = alphabet(tier, false);
@@ -441,22 +465,26 @@ pub fn prop(tier: Tier, _seed: u64) -> Prop {
     let ladder: Vec<Act> = ladder_alphabet();
     let d_ladder: u8 = tier.pick(4, 5);
     let l1 = ladder.clone();
-    p.extra.push(Box::new(move |cfg| search(l1.clone(), d_ladder, cfg.threads, "ladder alphabet, deepest")));
+    // every search runs in a child process of its own (the transitions execute the library's
+    // kernels on a live Resizer: a memory-corrupting change must end in a verdict, not in an
+    // aborted driver)
+    let _ = (l1, f1, s1);
+    p.extra.push(Box::new(move |cfg| search_isolated(tier, "ladder alphabet, deepest", cfg.threads)));
     p.extra.push(Box::new(move |cfg| {
         // run twice and compare the counts: the model must be deterministic
-        let a = search(f1.clone(), d_full, cfg.threads, "full alphabet");
+        let a = search_isolated(tier, "full alphabet", cfg.threads);
         if tier == Tier::Thorough {
             return a; // the repeat is done in the quick tier (same model, same engine)
         }
-        let b = search(f1.clone(), d_full, cfg.threads, "full alphabet (repeat)");
+        let b = search_isolated(tier, "full alphabet (repeat)", cfg.threads);
         let mut r = a.clone();
-        if a.cases != b.cases || a.ops != b.ops {
+        if (a.cases != b.cases || a.ops != b.ops) && a.sig_counts.is_empty() && b.sig_counts.is_empty() {
             eprintln!("MACHINERY-ERROR stateright search is not deterministic: {} vs {} states", a.cases, b.cases);
             r.notes.insert("machinery_errors".into(), 1);
         }
         r
     }));
-    p.extra.push(Box::new(move |cfg| search(s1.clone(), d_sub, cfg.threads, "sub-alphabet, deeper")));
+    p.extra.push(Box::new(move |cfg| search_isolated(tier, "sub-alphabet, deeper", cfg.threads)));
     let (f2, s2) = (full.clone(), sub.clone());
     p.replay_fn = Some(Box::new(move |detail: &Value| {
         let l2 = ladder_alphabet();
